@@ -5,4 +5,6 @@ var Harnesses = map[string]func(){
 	"EnvPrecedence": EnvPrecedence,
 	"Vars":          Vars,
 	"Exec":          Exec,
+	"AppSmoke":      AppSmoke,
+	"TabSmoke":      TabSmoke,
 }
